@@ -37,6 +37,8 @@ def configs(tier):
     for cls in ('IncrementalSage', 'IncrementalPFI'):
         for mode in ('static', 'dynamic'):
             add(group='inc', cls=cls, d=1, q=1, m=1, mode=mode, imputer='joint', storage='batch', resume=True, _cost=10)
+            add(group='inc', cls=cls, d=1, q=1, m=1, mode=mode, imputer='joint', storage='batch', resume=True, faults=2, _cost=100)
+            add(group='inc', cls=cls, d=2, q=1, m=1, mode=mode, imputer='joint', storage='interval', resume=True, faults=2, _cost=900)
             add(group='inc', cls=cls, d=2, q=1, m=2, mode=mode, imputer='joint', storage='batch', resume=True, _cost=400)
             add(group='inc', cls=cls, d=2, q=2, m=1, mode=mode, imputer='product', storage='interval', resume=False, _cost=100)
             add(group='inc', cls=cls, d=2, q=1, m=2, mode=mode, imputer='joint', storage='geometric', resume=False, _cost=100)
@@ -126,6 +128,36 @@ def _inc(env, cfg):
         _same_dict(env, f"marginal_prediction_attr_unchanged:{kind}", now['mpred_attr'], snap['mpred_attr'], site)
         env.claim(f"tracker_counts_unchanged:{kind}", And(eq(now['marg_N'], snap['marg_N']), eq(now['model_N'], snap['model_N']),
                                                          eq(now['mpred_N'], snap['mpred_N'])), detail=site)
+    if cfg.get('faults', 1) >= 2:
+        # a second failing call right after the first one (its own symbolic crash index), estimates still untouched
+        plan2 = FaultPlan(env, name='crash_k2')
+        plan.fired_at, plan.enabled = ('done', 'done'), False
+        b['model'].faults = b['loss'].faults = b['imputer'].faults = plan2
+        real_upd = b['storage'].update
+
+        def upd2(*a, **k):
+            plan2.tick('storage')
+            return real_upd(*a, **k)
+        b['storage'].update = upd2
+        raised2 = None
+        try:
+            ex.explain_one(sym_row(env, names, 'x1b'), env.real('y1b'))
+        except Boom as e:
+            raised2 = e
+        if plan2.fired_at is not None:
+            kind2 = plan2.fired_at[1]
+            site2 = f"second crash at callback #{plan2.fired_at[0]} ({kind2}) after {site}"
+            env.claim(f"exception_propagates:{kind2}", raised2 is not None, detail=site2)
+            now2 = _snapshot(ex, sage)
+            _same_dict(env, f"importance_unchanged:{kind2}", now2['imp'], snap['imp'], site2)
+            _same_dict(env, f"variances_unchanged:{kind2}", now2['var'], snap['var'], site2)
+            if sage:
+                env.claim(f"marginal_loss_unchanged:{kind2}", eq(now2['marg'], snap['marg']), detail=site2)
+                env.claim(f"model_loss_unchanged:{kind2}", eq(now2['model'], snap['model']), detail=site2)
+                _same_dict(env, f"marginal_prediction_unchanged:{kind2}", now2['mpred'], snap['mpred'], site2)
+        else:
+            return      # the second call went through: nothing more to compare with the first snapshot
+        plan2.enabled = False
     if cfg.get('resume') and sage:
         x2 = sym_row(env, names, 'x2')
         y2 = env.real('y2')
